@@ -41,6 +41,30 @@ def scale_write(tier):
     return g
 
 
+def m2_read(tier):
+    can = SC.can
+    g = [dict(name="T_mixed", params=dict(B=256, Q=3, NREADS=-1, CHOP=100),
+              items=[can(i) if i % 4 else ["apptext", i, 150] for i in range(1, 25)]),
+         dict(name="T_close7", params=dict(B=128, Q=2, NREADS=7, CHOP=96), items=[can(i) for i in range(1, 21)]),
+         dict(name="T_unk", params=dict(B=64, Q=2, NREADS=-1, CHOP=40),
+              items=[can(1), ["unk", 200, 130], can(2), ["unk", 27, 17], can(3), ["t115", 4]])]
+    if tier == "thorough":
+        g.append(dict(name="T_long", params=dict(B=512, Q=10, NREADS=-1, CHOP=300),
+                      items=[can(i) if i % 5 else ["apptext", i, 700] for i in range(1, 120)]))
+    return g
+
+
+def m2_write(tier):
+    can = SC.can
+    g = [dict(name="T_wmixed", params=dict(B=256, Q=3, C=100, RP=1, LEVEL=0),
+              items=[can(i) if i % 4 else ["apptext", i, 150] for i in range(1, 25)]),
+         dict(name="T_wbigC", params=dict(B=64, Q=2, C=500, RP=0, LEVEL=0), items=[can(i) for i in range(1, 30)])]
+    if tier == "thorough":
+        g.append(dict(name="T_wlong", params=dict(B=512, Q=10, C=300, RP=1, LEVEL=0),
+                      items=[can(i) if i % 5 else ["apptext", i, 700] for i in range(1, 120)]))
+    return g
+
+
 def run(rep, tier, seed):
     rep.cov["rule"] = ("TLC explores every interleaving of App/U/C at lock grain for each small configuration "
                        "(DeadlockFree as invariant, Termination under weak fairness); every edge of those graphs is "
@@ -49,6 +73,10 @@ def run(rep, tier, seed):
                        "verdicts. distinct_nontrivial = distinct (state, thread) edges replayed")
     SC.model_and_replay(rep, "r", SC.read_grid(tier), "c06_r_" + tier, ["DeadlockFree"], key="read")
     SC.model_and_replay(rep, "w", SC.write_grid(tier), "c06_w_" + tier, ["DeadlockFree"], key="write")
+    # M2: medium-size sessions under seeded schedules, every recorded step validated by TLC against the spec
+    nt = 3 if tier == "quick" else 12
+    SC.trace_validate(rep, "r", m2_read(tier), "c06_Tr_" + tier, seed, nt, ["QueueBounded", "NullIsLast"], key="read")
+    SC.trace_validate(rep, "w", m2_write(tier), "c06_Tw_" + tier, seed, nt, ["QueueBounded", "NoOversize"], key="write")
     runs = 8 if tier == "quick" else 60
     rr, _ = SC.random_runs(rep, "r", scale_read(tier), "c06_R_" + tier, seed, runs, key="read")
     wr, _ = SC.random_runs(rep, "w", scale_write(tier), "c06_W_" + tier, seed, runs, key="write")
